@@ -299,7 +299,7 @@ theorem buildNew_meets_gen (src : Source) (wf : SrcWF src) (bs be : Int) (hb : s
     (hnorm : ∀ rp rp', rp.norm = rp'.norm → RPShape src rp →
       (keptM.map fun c => (liftChildP rp c).norm).Perm (keptS.map fun c => (expectChild rp' c).norm))
     (hnd : (keptS.map Child.guid).Nodup)
-    (start stop : Int) (hdom : SubsetDomain src bs be start stop) :
+    (start stop : Int) (hdom : SubsetDomain src start stop) :
     ∃ r, buildNew src keptM start stop = .ok r ∧ r.norm = (expectResult src start stop keptS).norm := by
   obtain ⟨rp, hsp, hn, hne, hshape⟩ := subsetParent_spec src wf bs be hb start stop hdom
   refine ⟨_, buildNew_eq src keptM start stop rp hsp hne hk, ?_⟩
@@ -311,8 +311,7 @@ theorem returnForIdQueries_meets_gen (src : Source) (wf : SrcWF src) (bs be : In
     (hspan : (keptM.map fun c => (c.start, c.stop)).Perm (keptS.map fun c => (c.start, c.stop)))
     (hnorm : ∀ rp rp', rp.norm = rp'.norm → RPShape src rp →
       (keptM.map fun c => (liftChildP rp c).norm).Perm (keptS.map fun c => (expectChild rp' c).norm))
-    (hnd : (keptS.map Child.guid).Nodup)
-    (hin : (locRange src).isSome = true → IdDomain src bs be keptS) :
+    (hnd : (keptS.map Child.guid).Nodup) :
     okIdResult src keptS (toAns (returnForIdQueries src keptM)) = true := by
   unfold okIdResult expectIdResult returnForIdQueries
   rw [specBounds_eq_self hb, checkSource_ok wf.cons, needBounds_of hb]
@@ -329,7 +328,7 @@ theorem returnForIdQueries_meets_gen (src : Source) (wf : SrcWF src) (bs be : In
   obtain ⟨ns, ne⟩ := nb
   simp only []
   obtain ⟨r, hr, hrn⟩ := buildNew_meets_gen src wf bs be hb keptM keptS hk hnorm hnd ns ne
-    (idDomain_subset src wf bs be hb keptS ns ne hnb hin)
+    (idBounds_subset src wf bs be hb keptS ns ne hnb)
   rw [hr]
   simp only [toAns, meets, beq_iff_eq]
   exact hrn
